@@ -192,6 +192,17 @@ def check(ctx):
         if aps is None:
             r1.bad(V(r1.id, "CommandParser::is_tauri_parameter_type", "unclassified-context:too-many-paths", "the predicate is not a small decision list any more"))
             aps = []
+        # the path enumeration reads the branches of this body; a narrowing combinator hides a branch inside a closure it does not enter
+        # (seed C04/n: `segments.last().filter(|_| segments.len() == 1)` silently restricted the bare names to one-segment paths, so
+        # tauri::webview::WebviewWindow became a key) — fail closed on Option::filter / take_if / and_then / then / then_some in the predicate
+        if mf:
+            hidden = sorted({short_path(c.best) for c in mf[0].calls
+                             if re.search(r"(?:^|::)Option::<[^>]*>::(filter|take_if|and_then|is_some_and|is_none_or|xor|zip)$|(?:^|::)bool::(then|then_some)$", re.sub(r"<.*?>", "<T>", c.best or ""))})
+            if hidden:
+                r1.bad(V(r1.id, "CommandParser::is_tauri_parameter_type", "hidden-narrowing:%s" % ",".join(hidden),
+                         "the predicate narrows a tested value through %s: the closure's condition decides which spellings are accepted and is not part of the decision list the table is read from" % ", ".join(hidden)))
+            else:
+                r1.ok("no narrowing combinator between the path's segments and the name tests")
         for a_ in aps:
             klass, name_ = classify(a_, generic_arg_tests=False)     # State<'_, T>: which kind of argument comes first says nothing about the name
             if name_ in ("tauri", "ipc"):
